@@ -13,7 +13,8 @@ Definition o_tl := (Z * list N * Z)%type.                     (* StartTime, Samp
 (* build phase: operations on the original, one observation each *)
 Inductive b_op :=
 | BPut (w : o_write)
-| BDel (thr : Z) (cbs : list (nat * Z)) (gone : bool).
+| BDel (thr : Z) (cbs : list (nat * Z)) (gone : bool)
+| BSetMeta (m : o_meta).                 (* SetMetadata before a write, as Storage.Put does *)
 
 (* after the reload: the same operation on both copies, two observations *)
 Inductive d_op :=
@@ -21,7 +22,8 @@ Inductive d_op :=
 | DGet (q1 q2 : o_query)
 | DDel (thr : Z) (cbs1 cbs2 : list (nat * Z)) (gone1 gone2 : bool)
 | DTimeline (st et : Z) (t1 t2 : o_tl)
-| DMeta (m1 m2 : o_meta).
+| DMeta (m1 m2 : o_meta)
+| DSetMeta (m : o_meta).                 (* SetMetadata(m) on both copies *)
 
 Record case := {
   d_build : list b_op;
@@ -145,24 +147,34 @@ Fixpoint run_build (ops : list b_op) (s : segment) (acc : list verdict) : segmen
   | [] => (s, rev acc)
   | BPut w :: ops' => let '(s', v) := model_put s w in run_build ops' s' (v :: acc)
   | BDel thr cbs gone :: ops' => let '(s', v) := model_del s thr cbs gone in run_build ops' s' (v :: acc)
+  | BSetMeta m :: ops' => run_build ops' (s_set_meta (meta_of m) s) acc
   end.
 
-Fixpoint run_ops (mok : o_meta -> o_meta -> bool) (ops : list d_op) (s : segment) (acc : list verdict) : segment * list verdict :=
+(* [exp]: None = the getters of the two copies must be equal; Some (e0, e1) = (known finding, until the next
+   SetMetadata) copy 0 must report e0 and the reloaded copy e1 *)
+Fixpoint run_ops (exp : option (o_meta * o_meta)) (ops : list d_op) (s : segment) (acc : list verdict) : segment * list verdict :=
   match ops with
   | [] => (s, rev acc)
   | DPut w1 w2 :: ops' =>
       let '(s', v) := model_put s w1 in
-      run_ops mok ops' s' (v :: spec (ow_eqb w1 w2) "Put: the reloaded copy made different callbacks" :: acc)
+      run_ops exp ops' s' (v :: spec (ow_eqb w1 w2) "Put: the reloaded copy made different callbacks" :: acc)
   | DGet q1 q2 :: ops' =>
-      run_ops mok ops' s (model_get s q1 :: spec (oq_eqb q1 q2) "Get: the reloaded copy answered differently" :: acc)
+      run_ops exp ops' s (model_get s q1 :: spec (oq_eqb q1 q2) "Get: the reloaded copy answered differently" :: acc)
   | DDel thr c1 c2 g1 g2 :: ops' =>
       let '(s', v) := model_del s thr c1 g1 in
-      run_ops mok ops' s' (v :: spec (list_eqb kz_eqb c1 c2 && Bool.eqb g1 g2)
+      run_ops exp ops' s' (v :: spec (list_eqb kz_eqb c1 c2 && Bool.eqb g1 g2)
                                  "DeleteDataBefore: the reloaded copy behaved differently" :: acc)
   | DTimeline _ _ t1 t2 :: ops' =>
-      run_ops mok ops' s (spec (otl_eqb t1 t2) "timeline: the reloaded copy differs" :: acc)
+      run_ops exp ops' s (spec (otl_eqb t1 t2) "timeline: the reloaded copy differs" :: acc)
   | DMeta m1 m2 :: ops' =>
-      run_ops mok ops' s (spec (mok m1 m2) "metadata getters: the reloaded copy differs" :: acc)
+      run_ops exp ops' s (spec (match exp with
+                                | Some (e0, e1) => o_meta_eqb m1 e0 && o_meta_eqb m2 e1
+                                | None => o_meta_eqb m1 m2
+                                end) "metadata getters: the reloaded copy differs" ::
+                          corr (o_meta_eqb m1 (m_spy (s_meta s), m_rate (s_meta s), m_units (s_meta s), m_agg (s_meta s)))
+                               "metadata getters of the original differ from the last SetMetadata" :: acc)
+  | DSetMeta m :: ops' =>
+      run_ops (match exp with Some _ => Some (m, m) | None => None end) ops' (s_set_meta (meta_of m) s) acc
   end.
 
 Definition check_case (c : case) : verdict :=
@@ -175,9 +187,9 @@ Definition check_case (c : case) : verdict :=
      outside the metadata block.  Everything else is checked as usual. *)
   let strict := o_meta_eqb (d_meta c) (d_meta1 c) in
   let known := negb strict && metadata_invalid_utf8 (d_meta c) (d_meta1 c) in
-  let mok := if known then (fun m1 m2 => o_meta_eqb m1 (d_meta c) && o_meta_eqb m2 (d_meta1 c)) else o_meta_eqb in
+  let exp := if known then Some (d_meta c, d_meta1 c) else None in
   let beq := if known then same_but_meta else bytes_eqb in
-  let '(mend, ov) := run_ops mok (d_ops c) m0 [] in
+  let '(mend, ov) := run_ops exp (d_ops c) m0 [] in
   let r := combine_verdicts (
     [ spec (d_loaded c) "FromBytes failed on bytes written by Bytes";
       spec (oon_eqb (d_tree0 c) (d_tree1 c)) "the reloaded tree differs from the saved one";
@@ -203,7 +215,11 @@ Definition check_case (c : case) : verdict :=
             | Some s => tree_matches s (d_tree0 c)
             | None => false
             end) "model encoder/decoder round trip differs from the saved segment";
-      corr (tree_matches mend (d_end0 c)) "model tree differs after the operations (put/delete model)" ]) in
+      corr (tree_matches mend (d_end0 c)) "model tree differs after the operations (put/delete model)";
+      corr (match meta_block (d_endbytes0 c) with
+            | Some mb => bytes_eqb mb (write_meta (s_meta mend))
+            | None => false
+            end) "metadata JSON written by Go after the operations differs from the model of json.Marshal" ]) in
   match r with
   | Ok => if known then Known "metadata-invalid-utf8" else Ok
   | _ => r
